@@ -469,6 +469,13 @@ def install(it):
         a, b = args
         if a is None or b is None:
             return a is None and b is None
+        from .values import Opaque
+        for x in (a, b):
+            if isinstance(x, Opaque) and 'from an earlier iteration' in x.name:
+                # a value the loop frame rule made arbitrary (a container filled in earlier iterations): whether it
+                # equals the required value is unknown, so the clause cannot be proved from the loop head
+                it.p.counter += 1
+                return z3.Bool('same_unknown!%d' % it.p.counter)
         return ops.values_equal(it, a, b)
 
     @reg('utf8_ok')
